@@ -411,3 +411,32 @@ func exitWithoutPassing(start ssa.Instruction, pass func(ssa.Instruction) bool, 
 	walk(item{start.Block(), instrIndex(start) + 1})
 	return bad
 }
+
+// retVal returns the value actually returned in result slot i. Functions with defers spill
+// their results: `*r = v; rundefers; t = *r; return t` - the spilled value is recovered from
+// the last store to the result cell in the same block.
+func retVal(ret *ssa.Return, i int) ssa.Value {
+	if i >= len(ret.Results) {
+		return nil
+	}
+	v := ret.Results[i]
+	u, ok := v.(*ssa.UnOp)
+	if !ok || u.Op != token.MUL {
+		return v
+	}
+	cell, ok := u.X.(*ssa.Alloc)
+	if !ok {
+		return v
+	}
+	b := ret.Block()
+	var last ssa.Value
+	for _, in := range b.Instrs {
+		if st, ok := in.(*ssa.Store); ok && st.Addr == cell {
+			last = st.Val
+		}
+	}
+	if last != nil {
+		return last
+	}
+	return v
+}
